@@ -141,6 +141,6 @@ def jobs(tier):
     js = []
     for theory, defs, units in (('idl', [], IDL_UNITS), ('rdl', ['RDL'], RDL_UNITS)):
         for i, (T, cs, h) in enumerate(scs):
-            js.append(Job('%s/scenario%04d' % (theory, i), 'C10_dl.cpp', 'h_dl', units, 100, defs=defs, params=scen(T, cs, h), timeout=90, mem=4,
+            js.append(Job('%s/scenario%04d' % (theory, i), 'C10_dl.cpp', 'h_dl', units, 100, defs=defs, params=scen(T, cs, h), timeout=90, mem=8,
                           desc=theory + ': ' + fmt(T, cs, h), bounds={'time_points': T, 'constraints': len(cs), 'history': len(h), 'x_range': 8}))
     return batch(js, k)
